@@ -899,7 +899,13 @@ pub fn gen_co_case(bytes: &[u8], cp: &CoProfile) -> CoCase {
     let p = &cp.base;
     let terminal = c.weighted(&cp.terminals);
     let source = if c.coin(cp.p_src_vec) { SourceKind::Vec } else { SourceKind::Co };
-    let n = ITEM_COUNTS[c.choice(ITEM_COUNTS.len())];
+    let mut n = ITEM_COUNTS[c.choice(ITEM_COUNTS.len())];
+    // now and then a long source: more items than any internal budget or
+    // inline capacity (32, 61, 64, 256, 1024); their closure futures then
+    // share one script per stage
+    if c.coin(3) {
+        n = [33usize, 70, 300, 1100][c.choice(4)];
+    }
     // source script
     let mut src_script = Vec::new();
     for _ in 0..n {
@@ -957,17 +963,39 @@ pub fn gen_co_case(bytes: &[u8], cp: &CoProfile) -> CoCase {
     }
     // closure futures
     let mut work: Vec<Vec<LeafSpec>> = Vec::new();
+    let mut stage = |c: &mut Cur, fallible: bool| -> Vec<LeafSpec> {
+        if n > 12 {
+            // one script for all items of this stage, except that a fallible
+            // stage lets one item (anywhere) fail now and then
+            let mut t = gen_work(c, p, false);
+            if c.coin(150) && t.script.len() == 1 {
+                t.script.insert(0, Step::Later);
+            }
+            let mut v = vec![t; n];
+            if fallible && c.coin(p.p_err.max(60)) {
+                let at = c.choice(n);
+                if let Some(last) = v[at].script.last_mut() {
+                    if matches!(last, Step::Yield(_) | Step::WakeYield) {
+                        *last = Step::Yield(false);
+                    }
+                }
+            }
+            v
+        } else {
+            (0..n).map(|_| gen_work(c, p, fallible)).collect()
+        }
+    };
     for a in &stack {
         if *a == Adapter::Map {
-            work.push((0..n).map(|_| gen_work(&mut c, p, false)).collect());
+            work.push(stage(&mut c, false));
         } else {
             work.push(Vec::new());
         }
     }
     match terminal {
         Terminal::CollectVec => work.push(Vec::new()),
-        Terminal::ForEach => work.push((0..n).map(|_| gen_work(&mut c, p, false)).collect()),
-        Terminal::TryForEach | Terminal::CollectResult => work.push((0..n).map(|_| gen_work(&mut c, p, true)).collect()),
+        Terminal::ForEach => work.push(stage(&mut c, false)),
+        Terminal::TryForEach | Terminal::CollectResult => work.push(stage(&mut c, true)),
     }
     if c.coin(p.p_panic) {
         // fault injection: one panic, in the source or in one closure future
